@@ -85,10 +85,12 @@ Clauses(st, e) ==
         e.ev = "End" => \A f \in DOMAIN st.polled :
             (f \notin st.ccall /\ ~st.down) => st.polled[f] = st.ended[f]>>,
      <<"C05_StopRule",
-        (e.ev = "ShouldRetry" /\ st.kind = "exc" /\ Has(st.endo, e.f)) =>
+        (e.ev = "ShouldRetry" /\ st.kind \in {"exc", "excf"} /\ Has(st.endo, e.f)) =>
             e.a = (IF st.endo[e.f][1] = 1 /\ e.k < st.maxatt THEN 1 ELSE 0)>>,
      <<"C05_Delays",
-        (e.ev = "SleepTime" /\ st.kind = "exc") => e.a = Backoff(st, e.k)>>,
+        \* (whole-tick parameters: the formula in ticks; in every case the recording policy's own exact comparison, b)
+        /\ (e.ev = "SleepTime" /\ st.kind = "exc") => e.a = Backoff(st, e.k)
+        /\ (e.ev = "SleepTime" /\ st.kind \in {"exc", "excf"}) => e.b # 0>>,
      <<"C05_RetriedIfPolicySaidSo",
         e.ev = "End" => \A f \in DOMAIN st.dec :
             (st.dec[f] = 1 /\ f \notin st.ccall /\ ~st.down /\ st.delay[f] >= 0
